@@ -79,7 +79,7 @@ Section ibox_induction.
   Variable P : ibox -> Prop.
   Hypothesis HT : forall n x w js, P (T n x w js).
   Hypothesis HI : forall rtl x w kids, Forall P kids -> P (I rtl x w kids).
-  Hypothesis HA : forall x w, P (A x w).
+  Hypothesis HA : forall x w ins, Forall P ins -> P (A x w ins).
   Hypothesis HF : forall x w, P (F x w).
   Fixpoint ibox_ind' (b : ibox) : P b :=
     match b with
@@ -87,7 +87,9 @@ Section ibox_induction.
     | I rtl x w kids =>
         HI rtl x w kids ((fix go (l : list ibox) : Forall P l :=
                             match l with [] => Forall_nil P | k :: r => Forall_cons k (ibox_ind' k) (go r) end) kids)
-    | A x w => HA x w
+    | A x w ins =>
+        HA x w ins ((fix go (l : list ibox) : Forall P l :=
+                       match l with [] => Forall_nil P | k :: r => Forall_cons k (ibox_ind' k) (go r) end) ins)
     | F x w => HF x w
     end.
 End ibox_induction.
@@ -208,6 +210,73 @@ Proof.
     + eapply IHr; eauto.
 Qed.
 
+(* ------------------------------------------------------------ descendants of atomic boxes move with their box *)
+Fixpoint nested_list (l : list ibox) : Prop := match l with [] => True | k :: r => well_nested k /\ nested_list r end.
+Fixpoint inside_list (x w : Q) (l : list ibox) : Prop :=
+  match l with
+  | [] => True
+  | d :: r => (x <= box_x d /\ box_x d + box_w d <= x + w /\ well_nested d) /\ inside_list x w r
+  end.
+Lemma well_nested_A x w ins : well_nested (A x w ins) = inside_list x w ins.
+Proof. simpl. induction ins; [reflexivity|]. simpl. rewrite IHins. reflexivity. Qed.
+Lemma well_nested_I r x w kids : well_nested (I r x w kids) = nested_list kids.
+Proof. simpl. induction kids; [reflexivity|]. simpl. rewrite IHkids. reflexivity. Qed.
+
+Lemma shift_x d b : box_x (shift d b) = box_x b + d.
+Proof. destruct b; reflexivity. Qed.
+Lemma shift_w d b : box_w (shift d b) = box_w b.
+Proof. destruct b; reflexivity. Qed.
+
+(* translate keeps everything that is inside a box inside it *)
+Lemma well_nested_shift d : forall b, well_nested b -> well_nested (shift d b).
+Proof.
+  induction b using ibox_ind'; intros Hb; try exact Logic.I.
+  - cbn [shift]. rewrite well_nested_I in *. induction H as [|k r Hk Hr IH]; [exact Logic.I|].
+    destruct Hb as [Hk1 Hr1]. cbn [map nested_list]. split; [apply Hk; exact Hk1|apply IH; exact Hr1].
+  - cbn [shift]. rewrite well_nested_A in *. induction H as [|k r Hk Hr IH]; [exact Logic.I|].
+    destruct Hb as [(Hx1 & Hx2 & Hk1) Hr1]. cbn [map inside_list]. split; [|apply IH; exact Hr1].
+    rewrite shift_x, shift_w. repeat split; [lra|lra|apply Hk; exact Hk1].
+Qed.
+
+(* the offsets of the descendants relative to their box are unchanged by add_word_spacing *)
+Lemma aws_atomic_moves_descendants x w ins js adv :
+  fst (add_word_spacing (A x w ins) js adv) = A (x + adv) w (map (shift adv) ins) /\
+  map (fun d => box_x d - (x + adv)) (map (shift adv) ins) = map (fun d => box_x d + adv - (x + adv)) ins.
+Proof. split; [reflexivity|]. rewrite map_map. apply map_ext. intros d. rewrite shift_x. reflexivity. Qed.
+
+Lemma go_nested js l : Forall (fun k => forall adv, well_nested k -> well_nested (fst (add_word_spacing k js adv))) l ->
+  forall a, nested_list l -> nested_list (fst (ltr_go (awsf js) l a)) /\ nested_list (fst (rtl_go (awsf js) l a)).
+Proof.
+  induction 1 as [|k r Hk Hr IH]; intros a Hn; [split; exact Logic.I|].
+  destruct Hn as [Hk1 Hr1]. cbn [ltr_go rtl_go]. split.
+  - change (awsf js k a) with (add_word_spacing k js a). pose proof (Hk a Hk1) as Hka.
+    destruct (add_word_spacing k js a) as [k' a1]. destruct (IH a1 Hr1) as [IHl _].
+    destruct (ltr_go (awsf js) r a1) as [r' a2]. cbn [fst nested_list] in *. split; assumption.
+  - destruct (IH a Hr1) as [_ IHr]. destruct (rtl_go (awsf js) r a) as [r' a1].
+    change (awsf js k a1) with (add_word_spacing k js a1). pose proof (Hk a1 Hk1) as Hka.
+    destruct (add_word_spacing k js a1) as [k' a2]. cbn [fst nested_list] in *. split; assumption.
+Qed.
+
+(* after add_word_spacing / justification every descendant of every atomic box of the line is still inside its box *)
+Lemma aws_well_nested : forall b js adv, well_nested b -> well_nested (fst (add_word_spacing b js adv)).
+Proof.
+  induction b using ibox_ind'; intros js0 adv Hb.
+  - simpl. destruct (0 <? n)%nat; exact Logic.I.
+  - rewrite aws_I. rewrite well_nested_I in Hb.
+    assert (HF : Forall (fun k => forall adv, well_nested k -> well_nested (fst (add_word_spacing k js0 adv))) kids).
+    { apply Forall_forall. intros k Hin a Hk. rewrite Forall_forall in H. apply (H k Hin). exact Hk. }
+    destruct (go_nested js0 kids HF adv Hb) as [Hl Hr]. destruct rtl.
+    + destruct (rtl_go (awsf js0) kids adv) as [kids' a']. cbn [fst] in *. rewrite well_nested_I. exact Hr.
+    + destruct (ltr_go (awsf js0) kids adv) as [kids' a']. cbn [fst] in *. rewrite well_nested_I. exact Hl.
+  - cbn [add_word_spacing fst]. apply well_nested_shift. exact Hb.
+  - exact Logic.I.
+Qed.
+
+Lemma justify_well_nested line extra : well_nested line -> well_nested (justify_line line extra).
+Proof.
+  intros H. unfold justify_line. destruct (0 <? count_spaces line)%nat; [|exact H]. apply aws_well_nested. exact H.
+Qed.
+
 (* --------------------------------------------------------------------------------------------- stacking *)
 Lemma stack_consecutive hs : forall y i yi hi yj hj,
   nth_error (stack y hs) i = Some (yi, hi) -> nth_error (stack y hs) (S i) = Some (yj, hj) -> yj = yi + hi.
@@ -286,10 +355,16 @@ Proof. intros H. split; [exact (line_height_uniform strut children H) | exact (s
 (* ---- the hypotheses are satisfiable *)
 Example ex_center : effective ACenter LAuto false = ACenter /\ 30 < 100 /\ fst (text_align 30 100 ACenter LAuto false true false) == 35.
 Proof. repeat split; reflexivity. Qed.
-Example ex_justify : (0 < count_spaces (I false 0 70 [T 2 0 50 0; A 50 20]))%nat /\
-  box_w (justify_line (I false 0 70 [T 2 0 50 0; A 50 20]) 30) == 100.
+Example ex_justify : (0 < count_spaces (I false 0 70 [T 2 0 50 0; A 50 20 []]))%nat /\
+  box_w (justify_line (I false 0 70 [T 2 0 50 0; A 50 20 []]) 30) == 100.
 Proof. split; [simpl; lia|vm_compute; reflexivity]. Qed.
 Example ex_stack : stack 5 [10; 12; 10] = [(5, 10); (5 + 10, 12); (5 + 10 + 12, 10)].
 Proof. reflexivity. Qed.
 Example ex_uniform : Forall (fun c => fst c == fst (8, 10) /\ snd c == snd (8, 10)) [(8, 10); (8, 10)].
 Proof. repeat constructor; reflexivity. Qed.
+
+Example ex_well_nested :
+  well_nested (I false 0 70 [T 1 0 30 0; A 30 40 [I false 35 30 [T 0 35 30 0]]]) /\
+  justify_line (I false 0 70 [T 1 0 30 0; A 30 40 [I false 35 30 [T 0 35 30 0]]]) 30 =
+    fst (add_word_spacing (I false 0 70 [T 1 0 30 0; A 30 40 [I false 35 30 [T 0 35 30 0]]]) (30 / 1) 0).
+Proof. split; [simpl; repeat split; try lra; exact Logic.I|reflexivity]. Qed.
